@@ -11,12 +11,12 @@ from world.sim import World, vname, outcome, oname  # noqa: E402
 
 
 def run(body, seed=0, mode="random", p_switch=0.2, trace_lines=True, replay=None, max_yields=100000,
-        line_filter=None):
+        line_filter=None, hold_at=None):
     """body(s, w) runs as controlled thread 0.  Returns (sched, world)."""
     patch.install()
     patch.neutralise_logging()
     patch.REC.records = []
-    ch = core.Chooser(seed=seed, mode=mode, p_switch=p_switch, replay=replay)
+    ch = core.Chooser(seed=seed, mode=mode, p_switch=p_switch, replay=replay, hold_at=hold_at)
     s = core.Sched(ch, trace_lines=trace_lines, impl_dir=patch.IMPL_DIR, max_yields=max_yields,
                    line_filter=line_filter)
     w = World()
